@@ -32,12 +32,12 @@ def _mem(a):
 POINTS = [(Fraction(1, 4), 20), (Fraction(1, 2), 10), (Fraction(1, 4), 20), (Fraction(1, 3), 10), (Fraction(3, 4), 30), (Fraction(1, 4), 10)]
 
 
-def fold_history(proj, base, obs_lists, n_calls=1):
+def fold_history(proj, base, obs_lists, n_calls=1, xgrid=None):
     """Fold a runner whose observables dict is built from obs_lists = [(name, [point indices])]."""
     cell = R.Cell(obs=obs_lists[0][0], **dict(base, nf=None))
     th = R.theory_card(cell)
     ob = R.observables_card(cell)
-    ob["interpolation_xgrid"] = [Fraction(1, 4), Fraction(1)]
+    ob["interpolation_xgrid"] = list(xgrid) if xgrid is not None else [Fraction(1, 4), Fraction(1)]
     th["MP"] = A.fn_sqrt(A.Rat.const(30))
     if base["fns"] == "ZM-VFNS":
         th.update(mc=1, mb=5, mt=100, kcThr=1, kbThr=1, ktThr=1)
@@ -45,7 +45,7 @@ def fold_history(proj, base, obs_lists, n_calls=1):
     for name, idxs in obs_lists:
         kins = []
         for i in idxs:
-            x, q2 = POINTS[i]
+            x, q2 = POINTS[i] if isinstance(i, int) else i  # an index into POINTS or an explicit (x, Q2)
             k = {"x": x, "Q2": q2}
             if name.startswith("XS"):
                 # inelasticities chosen such that two points of equal Q2 carry each other's (x, y) interchanged: points are
@@ -181,11 +181,13 @@ def jobs(tier):
     combos = [("F2_charm", "FL_total", "XSHERANC_charm"), ("F3_total", "F2_total", "XSHERANC_total"), ("XSHERANC_total", "F2_total", "XSHERACC_total"),
               ("g1_light", "F2_light", "XSHERANC_light")]
     schemes = [("ZM-VFNS", 4), ("FFNS", 3)] if tier == "quick" else [("ZM-VFNS", 4), ("FFNS", 3), ("FFN0", 3), ("FONLL-FFNS", 4)]
-    for (A_, B_, Bxs), (fns, nfff), tmc, sv in itertools.product(combos, schemes, [0, 1, 3] if tier == "thorough" else [0, 1], [False, True]):
+    for (A_, B_, Bxs), (fns, nfff), tmc, sv in itertools.product(combos, schemes, [0, 1, 2, 3] if tier == "thorough" else [0, 1, 2], [False, True]):
         if sv and (tmc or A_.startswith("XS")):
             continue
         if tier == "quick" and tmc and (A_ in ("g1_light", "F3_total") or (A_.startswith("XS") and fns != "ZM-VFNS")):
             continue
+        if tier == "quick" and tmc == 2 and fns != "ZM-VFNS":
+            continue  # every correction mode has its own code path per kind: the approximate formulas are walked as well
         out.append(dict(A=A_, B=B_, Bxs=Bxs, base=dict(process="NC", fns=fns, nfff=nfff, nf=4, pto=1, tmc=tmc, ren_sv=sv, fact_sv=sv, kin_y=False)))
         # NNLO with both variations: the (2, *, *, 2) sectors are built from the runner-wide cache of convolved splitting functions
         if sv and (tier == "thorough" or A_ in ("F2_charm", "F3_total")):
